@@ -63,7 +63,7 @@ def mut_list(arr: List[int], i: int, v: int, j: int) -> None:
 
 def mut_list_empty(v: int, i: int) -> None:
     """
-    pre: True
+    pre: -3 <= i <= 3
     post: True
     """
     hlib.enter(locals())
@@ -203,9 +203,64 @@ class SizedList(list):
         return SizedList(self.n)
 
 
-def _mk(n):
+class SizedStr(str):
+    """str stand-in whose LENGTH is a symbolic int; concatenation adds lengths.  Replay uses real strings."""
+
+    def __new__(cls, n=0):
+        o = str.__new__(cls, '')
+        o.n = n
+        return o
+
+    def __len__(self):
+        return self.n
+
+    def __add__(self, other):
+        if not isinstance(other, str):
+            return NotImplemented
+        return SizedStr(self.n + len(other))
+
+    __radd__ = __add__
+
+    def __deepcopy__(self, memo):
+        return self
+
+    def __copy__(self):
+        return self
+
+
+def _replaying():
     import os
-    return [0] * n if os.environ.get("SQV_MODE") == "replay" else SizedList(n)
+    return os.environ.get("SQV_MODE") == "replay"
+
+
+def _mk(n):
+    return [0] * n if _replaying() else SizedList(n)
+
+
+def growth_str(na: int, nb: int) -> None:
+    """
+    pre: 0 <= na and 0 <= nb
+    post: True
+    """
+    # strings are turned into lists of (about) their length by map / split / match_all, so a route that builds a
+    # string longer than every supplied one defeats the cap on lists
+    hlib.enter(locals())
+    text = hlib.PARAM["text"]
+    rep = _replaying()
+    a, b = ('x' * na, 'x' * nb) if rep else (SizedStr(na), SizedStr(nb))
+    names = {'a': a, 'b': b}
+    bound = max(CAP, na, nb)
+    out = run_eval(text, names, 1000)
+    res = out[1] if out[0] == 'ok' else None
+    if isinstance(res, str):
+        if rep:
+            # real strings: show the list
+            out2 = run_eval("r | map(c => c)", {'r': res}, 10**6)
+            assert out2[0] == 'ok' and isinstance(out2[1], list)
+            assert len(out2[1]) <= bound, "cap bypass: string built by the program mapped to a list longer than 10000 and than every operand"
+        else:
+            assert len(res) <= bound, "cap bypass: string built by the program mapped to a list longer than 10000 and than every operand"
+    hlib.done()
 
 
 def growth_sized(na: int, nb: int, k: int) -> None:
